@@ -61,7 +61,7 @@ PROPS = {
                "grid in theta-space and at random joints (oracle: angle between the joint-4 and joint-6 axes of the independent link "
                "chain); inverse_continuing at exactly singular poses (theta5 = 0) on well-conditioned postures with the previous joints "
                "realising the pose / having another J4-J6 split. non-trivial = every hook/sing line; inverse lines with >= 1 answer"),
-    "C09": cfg(1300, 60000, ["C09.", "C01.fk", "C01.finite", "C03.fwd_eq_chain_ref", "C03.links_eq_ref", "C04.sorted", "C06.j6", "C11.exact_filter"],
+    "C09": cfg(1300, 60000, ["C09.", "C01.fk", "C01.finite", "C03.fwd_eq_chain_ref", "C03.links_eq_ref", "C04.", "C06.j6", "C11.exact_filter"],
                "EXHAUSTIVE delegation matrix: every order of tool/base/frame to depth 2 (quick, 13 stack shapes) resp. 3 (thorough, 40 "
                "shapes) x general and axial isometries x {forward+links, inverse, inverse_continuing, inverse_5dof, "
                "inverse_continuing_5dof (axial), kinematic_singularity, constraints()} x robot zoo, with and without limits; "
